@@ -152,6 +152,22 @@ impl<'a, T: ApproxModel> ApproxModel for &'a T {
     open spec fn ulps_eq_default_spec(a: &'a T, b: &'a T) -> bool { T::ulps_eq_default_spec(*a, *b) }
     open spec fn abs_diff_eq_default_spec(a: &'a T, b: &'a T) -> bool { T::abs_diff_eq_default_spec(*a, *b) }
 }
+// rule R13 with explicit builder options: `ulps_eq!(a, b, epsilon = e, max_ulps = n)` expands to
+// `::approx::Ulps::default().epsilon(e).max_ulps(n).eq(&a, &b)`; an option that is not given keeps the type's default
+pub trait ApproxOpts: Sized {
+    spec fn ulps_eq_opts_spec(a: Self, b: Self, eps: Option<Sc>, mu: Option<u32>) -> bool;
+    spec fn abs_diff_eq_opts_spec(a: Self, b: Self, eps: Option<Sc>) -> bool;
+}
+pub open spec fn opt_sc(o: Option<Sc>, d: Sc) -> Sc { match o { Some(x) => x, None => d } }
+pub open spec fn opt_u32(o: Option<u32>, d: u32) -> u32 { match o { Some(x) => x, None => d } }
+impl ApproxOpts for Sc {
+    open spec fn ulps_eq_opts_spec(a: Sc, b: Sc, eps: Option<Sc>, mu: Option<u32>) -> bool { s_ulps_eq(a, b, opt_sc(eps, s_default_epsilon()), opt_u32(mu, s_default_max_ulps())) }
+    open spec fn abs_diff_eq_opts_spec(a: Sc, b: Sc, eps: Option<Sc>) -> bool { s_abs_diff_eq(a, b, opt_sc(eps, s_default_epsilon())) }
+}
+#[verifier::external_body] pub fn ulps_opts_eq<T: ApproxOpts>(eps: Option<Sc>, mu: Option<u32>, a: &T, b: &T) -> (r: bool) ensures r == T::ulps_eq_opts_spec(*a, *b, eps, mu) { unimplemented!() }
+#[verifier::external_body] pub fn ulps_opts_ne<T: ApproxOpts>(eps: Option<Sc>, mu: Option<u32>, a: &T, b: &T) -> (r: bool) ensures r == !T::ulps_eq_opts_spec(*a, *b, eps, mu) { unimplemented!() }
+#[verifier::external_body] pub fn abs_diff_opts_eq<T: ApproxOpts>(eps: Option<Sc>, a: &T, b: &T) -> (r: bool) ensures r == T::abs_diff_eq_opts_spec(*a, *b, eps) { unimplemented!() }
+#[verifier::external_body] pub fn abs_diff_opts_ne<T: ApproxOpts>(eps: Option<Sc>, a: &T, b: &T) -> (r: bool) ensures r == !T::abs_diff_eq_opts_spec(*a, *b, eps) { unimplemented!() }
 // ---- the approx traits (external crate; declarations trusted) and their impls for the model scalar (A4)
 pub mod approx {
     use super::*;
